@@ -43,6 +43,8 @@ pub struct Fixtures {
     pub maps: Vec<Doc>,
     /// JavaScript-ish files (for sourcemap reference discovery under C05)
     pub scripts: Vec<Doc>,
+    /// indices into `maps` of the amplification documents (one long string, many references)
+    pub amplify: Vec<usize>,
 }
 
 fn walk(dir: &std::path::Path, out: &mut Vec<std::path::PathBuf>) {
@@ -96,6 +98,7 @@ impl Fixtures {
         let mut files = Vec::new();
         walk(std::path::Path::new("/repo/tests/fixtures"), &mut files);
         let mut maps = Vec::new();
+        let mut amplify = Vec::new();
         let mut scripts = Vec::new();
         for p in files {
             let name = p.to_string_lossy().to_string();
@@ -174,10 +177,67 @@ impl Fixtures {
             let text = format!("{{\"version\":3,\"sources\":[\"a.js\"],\"names\":[],\"mappings\":\"{m}\",\"rangeMappings\":\"{r}\"}}");
             maps.push(Doc { bytes: Arc::new(text.into_bytes()), label: format!("inline:many-lines-{lines}"), kind: DocKind::Inline });
         }
+        // amplification shapes: one long string and very many references to it. Memory that is
+        // held per *reference* and per *byte of the string* (a copy of the string per token, per
+        // scope, per source) grows with the product, i.e. quadratically in the document size;
+        // these documents make that visible to the allocation monitor at 20..40 KB
+        {
+            let long: String = "a_rather_long_identifier_or_path_segment/".chars().cycle().take(8192).collect();
+            let refs = 4000usize;
+            let rep = |first: &str, next: &str| {
+                let mut m = String::from(first);
+                for k in 0..refs {
+                    // mostly one generated line, with a line break now and then
+                    m.push(if k % 50 == 49 { ';' } else { ',' });
+                    m.push_str(next);
+                }
+                m
+            };
+            let mut amp: Vec<(&str, String)> = Vec::new();
+            amp.push(("hermes-name-x-scopes", format!(
+                "{{\"version\":3,\"sources\":[\"a.js\"],\"names\":[],\"mappings\":\"AAAA,CAAC\",\"x_facebook_sources\":[[{{\"names\":[\"{long}\",\"b\"],\"mappings\":\"{}\"}}]]}}",
+                rep("AAA", "CAA").replace(';', ","))));
+            amp.push(("hermes-name-x-scope-lines", format!(
+                "{{\"version\":3,\"sources\":[\"a.js\"],\"names\":[],\"mappings\":\"AAAA,CAAC\",\"x_facebook_sources\":[[{{\"names\":[\"b\",\"{long}\"],\"mappings\":\"{}\"}}]]}}",
+                rep("ACA", "CAC"))));
+            amp.push(("name-x-tokens", format!(
+                "{{\"version\":3,\"sources\":[\"a.js\"],\"names\":[\"{long}\"],\"mappings\":\"{}\"}}",
+                rep("AAAAA", "CAACA"))));
+            amp.push(("source-x-tokens", format!(
+                "{{\"version\":3,\"sources\":[\"{long}\"],\"names\":[],\"mappings\":\"{}\"}}",
+                rep("AAAA", "CAAC"))));
+            let content: String = "let a_line_of_source_text = 1;\\n".chars().cycle().take(8192 / 33 * 33).collect();
+            amp.push(("content-x-tokens", format!(
+                "{{\"version\":3,\"sources\":[\"a.js\"],\"sourcesContent\":[\"{content}\"],\"names\":[\"n\"],\"mappings\":\"{}\"}}",
+                rep("AAAAA", "CACAA"))));
+            let many = |one: &str| {
+                let mut v = String::new();
+                for k in 0..refs {
+                    if k > 0 {
+                        v.push(',');
+                    }
+                    v.push_str(one);
+                }
+                v
+            };
+            amp.push(("sourceroot-x-sources", format!(
+                "{{\"version\":3,\"sourceRoot\":\"{long}\",\"sources\":[{}],\"names\":[],\"mappings\":\"AAAA,CAAC\"}}",
+                many("\"s\""))));
+            amp.push(("sourceroot-x-absolute-sources", format!(
+                "{{\"version\":3,\"sourceRoot\":\"{long}\",\"sources\":[{}],\"names\":[],\"mappings\":\"AAAA,CAAC\"}}",
+                many("\"/s\""))));
+            amp.push(("index-sections-x-root", format!(
+                "{{\"version\":3,\"file\":\"{long}\",\"sourceRoot\":\"{long}\",\"sections\":[{}]}}",
+                (0..refs / 4).map(|k| format!("{{\"offset\":{{\"line\":{k},\"column\":0}},\"map\":{{\"version\":3,\"sources\":[\"s{}.js\"],\"names\":[],\"mappings\":\"AAAA\"}}}}", k % 7)).collect::<Vec<_>>().join(","))));
+            for (name, text) in amp {
+                amplify.push(maps.len());
+                maps.push(Doc { bytes: Arc::new(text.into_bytes()), label: format!("inline:amplify-{name}"), kind: DocKind::Inline });
+            }
+        }
         if maps.len() < 10 {
             simcore::harness_error("fixture maps under /repo/tests/fixtures not found");
         }
-        Fixtures { maps, scripts }
+        Fixtures { maps, scripts, amplify }
     }
 }
 
